@@ -113,6 +113,98 @@ def vfs_gate_obligations(ctx, rep, rule, eff=None):
         rep.fail(rule, "real-file handlers", detail="no handler using real-file APIs was found (mbox/pyg/scriptexec anchors vanished)")
 
 
+def stat_mode_obligations(ctx, rep, rule="R16h"):
+    """Handlers pick members by S_ISREG / S_ISDIR of the stat result, as they do for files on disk.  Whatever the archive
+    stores as external attributes (often permission bits only, or nothing), stat() has to report a regular-file mode for a
+    member and a directory mode for a directory."""
+    import stat as _stat
+
+    from ..structure import resolve_value
+
+    prog = ctx.prog
+    for V in ctx.archive_vfs_classes() if hasattr(ctx, "archive_vfs_classes") else [ctx.cls("handlers.ZIP.VFSZip")]:
+        if V is None:
+            continue
+        st = prog.resolve_method(V, "stat")
+        if st is None or st.cls is not V and st.cls.name == "VFS_Real":
+            continue
+
+        def fold(e, _d=0):
+            if isinstance(e, ast.Constant) and isinstance(e.value, int) and not isinstance(e.value, bool):
+                return e.value
+            if isinstance(e, ast.Attribute) and dotted(e) and dotted(e).startswith("stat.S_I") and hasattr(_stat, e.attr):
+                return getattr(_stat, e.attr)
+            if isinstance(e, ast.BinOp) and isinstance(e.op, (ast.BitOr, ast.Add)):
+                a, b = fold(e.left, _d), fold(e.right, _d)
+                return None if a is None or b is None else (a | b if isinstance(e.op, ast.BitOr) else a + b)
+            if isinstance(e, ast.Name) and _d < 3:
+                from ..paths import _is_global_written
+                vals = st.module.globals.get(e.id) or []
+                if len(vals) == 1 and not _is_global_written(prog, st.module, e.id):
+                    return fold(vals[0], _d + 1)
+            if isinstance(e, ast.Attribute) and isinstance(e.value, ast.Name) and e.value.id in ("self", "cls", V.name) and _d < 3:
+                a = prog.class_attr(V, e.attr)
+                if a is not None:
+                    return fold(a, _d + 1)
+            return None
+
+        modes = []
+        problems = []
+
+        def returns_of(fn, depth=0, binds=None):
+            for n in ast.walk(fn.node):
+                if not isinstance(n, ast.Return) or n.value is None:
+                    continue
+                v = n.value
+                if not isinstance(v, ast.Tuple):
+                    try:
+                        v = resolve_value(v, fn, V, None, prog, ctx.resolver)
+                    except Exception:
+                        pass
+                if isinstance(v, ast.Tuple) and v.elts:
+                    yield fn, n, v.elts[0]
+                elif isinstance(v, ast.Call) and depth < 2:
+                    # a helper that builds the tuple: its first argument / its own returns
+                    callee = None
+                    if isinstance(v.func, ast.Attribute) and dotted(v.func.value) == "self":
+                        callee = prog.resolve_method(V, v.func.attr)
+                    elif isinstance(v.func, ast.Name):
+                        callee = fn.module.functions.get(v.func.id) if hasattr(fn.module, "functions") else None
+                    dn = dotted(v.func) or ""
+                    if callee is None and dn.split(".")[-1] in ("stat_result", "tuple") and v.args:
+                        a0 = v.args[0]
+                        if isinstance(a0, (ast.Tuple, ast.List)) and a0.elts:
+                            yield fn, n, a0.elts[0]
+                            continue
+                    if callee is not None:
+                        params = [p for p in callee.params if p != "self"]
+                        amap = dict(zip(params, v.args))
+                        amap.update({k.arg: k.value for k in v.keywords if k.arg})
+                        for f2, n2, e2 in returns_of(callee, depth + 1):
+                            if isinstance(e2, ast.Name) and e2.id in amap:
+                                yield fn, n, amap[e2.id]
+                            else:
+                                yield f2, n2, e2
+                    else:
+                        yield fn, n, None
+                else:
+                    yield fn, n, None
+
+        for fn, n, e in returns_of(st):
+            m = fold(e) if e is not None else None
+            if m is None:
+                problems.append(f"line {n.lineno}: the mode `{norm(e)[:40] if e is not None else norm(n.value)[:40]}` is not a constant")
+            else:
+                modes.append(m)
+                if not (_stat.S_ISREG(m) or _stat.S_ISDIR(m)):
+                    problems.append(f"line {n.lineno}: mode {oct(m)} is neither a regular file nor a directory")
+        if not problems and not (any(_stat.S_ISREG(m) for m in modes) and any(_stat.S_ISDIR(m) for m in modes)):
+            problems.append(f"stat() reports only {sorted(map(oct, set(modes)))}: members and directories are not told apart")
+        rep.add(rule, f"{st.qualname}: members are regular files, directories are directories", not problems, ctx.where(st),
+                "; ".join(problems[:2]) + (": handlers test S_ISREG/S_ISDIR of this mode, so a member whose stored attributes lack the type bits "
+                                           "gets no handler and disappears from listings" if problems else ""), key=f"{rule}|{st.qualname}")
+
+
 def check(ctx, rep):
     prog = ctx.prog
     eff = Effects(prog, ctx.resolver)
@@ -122,6 +214,7 @@ def check(ctx, rep):
     rep.rule("R16e", "a link member whose target climbs above the archive root dangles (it is never resolved to a member)", floor=4)
     rep.rule("R16f", "archive member names are the stored bytes decoded as UTF-8/surrogateescape (cp437 round trip only without the UTF-8 flag)", floor=4)
     rep.rule("R16g", "archive index lookup evaluated on a representative index: members found, non-members refused, whatever lookups failed before", floor=1)
+    rep.rule("R16h", "the archive VFS reports every member as a regular file and every directory as a directory: the file-type bits of stat() are constants, not archive metadata", floor=1)
     rep.rule("R16d", "inner handler = HandlerMultiplexer.getHandler(..., vfs=<archive VFS>) on the same selector", floor=1)
     rep.assume("zipfile.ZipFile methods act on the already opened archive only")
     vfs = ctx.cls("handlers.base.VFS_Real")
@@ -311,6 +404,7 @@ def check(ctx, rep):
                         problems.append(f"{path!r} is not a member but the lookup gives {sorted(outs)} instead of KeyError")
         rep.add("R16g", f"{gi.qualname}: members found, non-members refused, independent of earlier lookups [{n} lookups]", not problems, ctx.where(gi),
                 "; ".join(sorted(set(problems))[:3]), key=f"R16g|{S.qualname}")
+    stat_mode_obligations(ctx, rep, "R16h")
     # R16d
     zh = ctx.cls("handlers.ZIP.ZIPHandler")
     gh = ctx.func("handlers.HandlerMultiplexer.getHandler")
